@@ -128,6 +128,17 @@ fn mypid_main<S: WriteAll + GetPid>(env: &mut Env<S>, _args: Vec<Field>) -> BFut
     })
 }
 
+/// `penv` - prints the environment an external utility would be started with
+/// (sorted, one line).
+fn penv_main<S: WriteAll>(env: &mut Env<S>, _args: Vec<Field>) -> BFut<'_> {
+    Box::pin(async move {
+        let mut e: Vec<String> = env.variables.env_c_strings().iter().map(|c| c.to_string_lossy().into_owned()).collect();
+        e.sort();
+        let s = format!("env: {}\n", e.join(" "));
+        BResult::new(write_out(env, Fd::STDOUT, s.as_bytes()).await)
+    })
+}
+
 /// `fdl` - prints the open descriptors below 24 of the calling process as
 /// `fdl: 0 1 2 10c` (c = close-on-exec), found with fcntl(F_GETFD); works on
 /// both systems. Leaves `$?` unchanged.
@@ -484,6 +495,7 @@ where
 {
     vec![
         ("fdl", Builtin::new(Type::Mandatory, fdl_main)),
+        ("penv", Builtin::new(Type::Mandatory, penv_main)),
         ("selfkill", Builtin::new(Type::Mandatory, selfkill_main)),
         ("recs", Builtin::new(Type::Mandatory, recs_main)),
         ("recsink", Builtin::new(Type::Mandatory, recsink_main)),
@@ -767,6 +779,12 @@ pub fn snapshot_text(env: &mut Env<VS>) -> String {
         "cwd={}",
         env.system.getcwd().map(|p| p.to_string_lossy().into_owned()).unwrap_or_default()
     ));
+    // the environment an external utility would be started with
+    {
+        let mut e: Vec<String> = env.variables.env_c_strings().iter().map(|c| c.to_string_lossy().replace('\n', "\\n")).collect();
+        e.sort();
+        lines.push(format!("envp={}", e.join("\u{1}")));
+    }
     let old = env.system.umask(yash_env::system::Mode::empty());
     env.system.umask(old);
     lines.push(format!("umask={:o}", old.bits()));
@@ -808,6 +826,32 @@ pub fn snapshot_text(env: &mut Env<VS>) -> String {
     }
     lines.sort();
     lines.join("\n")
+}
+
+/// `lastenv NAME` - prints `NAME=<value>` (or `NAME unset`) as found in the
+/// environment passed to the most recent `execve` of any process of the
+/// simulated system (recorded by the virtual kernel), or `no execve`.
+fn lastenv_main(env: &mut Env<VS>, args: Vec<Field>) -> BFut<'_> {
+    let name = args.first().map(|f| f.value.clone()).unwrap_or_default();
+    let text = {
+        let state = world_state();
+        let st = state.borrow();
+        let last = st.processes.iter().rev().find_map(|(_, p)| p.last_exec().clone());
+        match last {
+            None => "no execve".to_string(),
+            Some((_, _, envs)) => {
+                let prefix = format!("{name}=");
+                match envs.iter().map(|c| c.to_string_lossy().into_owned()).find(|e| e.starts_with(&prefix)) {
+                    Some(e) => e,
+                    None => format!("{name} unset"),
+                }
+            }
+        }
+    };
+    Box::pin(async move {
+        let s = format!("{text}\n");
+        BResult::new(write_out(env, Fd::STDOUT, s.as_bytes()).await)
+    })
 }
 
 /// `snap LABEL` - records [`snapshot_text`] in the history; `$?` unchanged.
@@ -1026,6 +1070,7 @@ pub fn virtual_probes() -> Vec<(&'static str, Builtin<VS>)> {
     v.push(("tell", Builtin::new(Type::Mandatory, tell_main)));
     v.push(("io", Builtin::new(Type::Mandatory, io_main)));
     v.push(("snap", Builtin::new(Type::Mandatory, snap_main)));
+    v.push(("lastenv", Builtin::new(Type::Mandatory, lastenv_main)));
     v.push(("jobcheck", Builtin::new(Type::Mandatory, jobcheck_main)));
     v.push(("pgcheck", Builtin::new(Type::Mandatory, pgcheck_main)));
     v.push(("jobsout", Builtin::new(Type::Mandatory, jobsout_main)));
